@@ -182,13 +182,13 @@ static void print_events(void)
             if (!strcmp(l, "errmsg")) printf("A%d:errmsg", e->a); else printf("A%d:%s:%zu", e->a, l, e->sz);
             break;
         }
-        case 1: printf("X:%zu", e->sz); break;
+        case 1: printf("X"); break;
         case 2: {
             const char *l = blks[e->b].live ? label(blks[e->b].p) : "tmp";
             if (!strcmp(l, "errmsg")) printf("R%d>%d:errmsg", e->a, e->b); else printf("R%d>%d:%s:%zu", e->a, e->b, l, e->sz);
             break;
         }
-        case 3: printf("RX%d:%zu", e->a, e->sz); break;
+        case 3: printf("RX%d", e->a); break;
         case 4: printf("F%d", e->a); break;
         case 5: printf("MD%d", e->a); break;
         case 6: printf("MC%d>%d", e->a, e->b); break;
@@ -341,10 +341,12 @@ static void do_op(char *line)
     else if (OP("get_scalars", 2)) {
         nlopt_opt o = SL(tok[1]);
         kind = 3;
+        if (!o) printf("crash"); else {
         printf("alg=%d n=%u stopval=", (int) nlopt_get_algorithm(o), nlopt_get_dimension(o)); phex(stdout, nlopt_get_stopval(o));
         printf(" ftol_rel="); phex(stdout, nlopt_get_ftol_rel(o)); printf(" ftol_abs="); phex(stdout, nlopt_get_ftol_abs(o));
         printf(" xtol_rel="); phex(stdout, nlopt_get_xtol_rel(o)); printf(" maxeval=%d maxtime=", nlopt_get_maxeval(o)); phex(stdout, nlopt_get_maxtime(o));
         printf(" numevals=%d fstop=%d pop=%u vs=%u nparams=%u", nlopt_get_numevals(o), nlopt_get_force_stop(o), nlopt_get_population(o), nlopt_get_vector_storage(o), nlopt_num_params(o));
+        }
     }
     else if (OP("get_param", 4)) { kind = 3; phex(stdout, nlopt_get_param(SL(tok[1]), strcmp(tok[2], "null") ? tok[2] : NULL, parsehex(tok[3]))); printf(":%d", nlopt_has_param(SL(tok[1]), strcmp(tok[2], "null") ? tok[2] : NULL)); }
     else if (OP("nth_param", 3)) { const char *nm = nlopt_nth_param(SL(tok[1]), (unsigned) atoi(tok[2])); kind = 3; printf("%s", nm ? nm : "(null)"); }
